@@ -119,6 +119,9 @@ HereDocs ==
            bm |-> <<"cs$[", "ln[", "ao[", "pl[", "c[", "simple[", "w[", "lit:a", "]w", "]simple", "]c", "]pl", "]ao", "]ln", "]cs", "lit: ",
                     "cs`[", "ln[", "ao[", "pl[", "c[", "simple[", "w[", "lit:b", "]w", "]simple", "]c", "]pl", "]ao", "]ln", "]cs", "lit:\n">>, dl |-> "E", dm |-> "lit:E"],
      [c |-> 1, op |-> "<<",  w |-> "E",      wm |-> <<"lit:E">>, body |-> "\\$v \\a\n", bm |-> <<"bs:$", "lit:v \\a\n">>, dl |-> "E", dm |-> "lit:E"],
+     \* an expansion / an escape directly followed by the text of the delimiter; escaped backquotes
+     [c |-> 1, op |-> "<<",  w |-> "E",      wm |-> <<"lit:E">>, body |-> "${v}E\n\\$E \\`b\\`\n",
+           bm |-> <<"pe[", "braces", "name:v", "]pe", "lit:E\n", "bs:$", "lit:E ", "bs:`", "lit:b", "bs:`", "lit:\n">>, dl |-> "E", dm |-> "lit:E"],
      [c |-> 1, op |-> "<<",  w |-> "'E'",    wm |-> <<"sq[", "lit:E", "]sq">>, body |-> "$v `b` \\$\n", bm |-> <<"lit:$v `b` \\$\n">>, dl |-> "E", dm |-> "lit:E"],
      [c |-> 1, op |-> "<<",  w |-> "\\E",    wm |-> <<"bs:E">>, body |-> "$v\n", bm |-> <<"lit:$v\n">>, dl |-> "E", dm |-> "lit:E"],
      [c |-> 1, op |-> "<<",  w |-> "E\"O\"F", wm |-> <<"lit:E", "dq[", "lit:O", "]dq", "lit:F">>, body |-> "$v\n", bm |-> <<"lit:$v\n">>, dl |-> "EOF", dm |-> "lit:EOF"],
@@ -136,7 +139,12 @@ RedirOps == <<">", "<", ">>", ">|", "<>", ">&", "<&">>
 ArithPool ==
   << [c |-> 0, t |-> "1 + 2",   m |-> <<"lit:1", "lit:+", "lit:2">>],
      [c |-> 1, t |-> "x<y",     m |-> <<"lit:x<y">>],
-     [c |-> 1, t |-> "$v > (1)", m |-> <<"pe[", "name:v", "]pe", "lit:>", "lit:(1)">>] >>
+     [c |-> 1, t |-> "$v > (1)", m |-> <<"pe[", "name:v", "]pe", "lit:>", "lit:(1)">>],
+     \* parts on several lines, the second line starting in the columns 1..4
+     [c |-> 1, t |-> "a -\n-b",    m |-> <<"lit:a", "lit:-", "lit:-b">>],
+     [c |-> 1, t |-> "a -\n -b",   m |-> <<"lit:a", "lit:-", "lit:-b">>],
+     [c |-> 1, t |-> "a -\n  -b",  m |-> <<"lit:a", "lit:-", "lit:-b">>],
+     [c |-> 1, t |-> "a -\n   -b", m |-> <<"lit:a", "lit:-", "lit:-b">>] >>
 
 (***************************************************************************)
 (* Alternatives.                                                            *)
@@ -314,6 +322,9 @@ Alts(nt) ==
     [] nt.n = "simple" ->
          << A(0, <<M("simple["), Same(nt, "cword"), M("]simple")>>),
             A(1, <<M("simple["), Same(nt, "cword"), Same(nt, "args"), M("]simple")>>),
+            \* a word of non-ASCII digits that touches a redirection operator is a word, not an IO_NUMBER
+            \* (Ux663 is spelled U+0663 ARABIC-INDIC DIGIT THREE in the source text: lib/shellgen.py)
+            A(1, <<M("simple["), Same(nt, "cword"), T("Ux663")>> \o WLit("Ux663") \o <<M("]simple"), M("r["), TA(">"), M("rop:>"), T("o")>> \o WLit("o") \o <<M("]r")>>),
             A(1, <<M("simple["), Same(nt, "cword"), M("]simple"), Same(nt, "redir"), Same(nt, "redirs0")>>),
             A(1, <<M("simple["), Same(nt, "cword"), Same(nt, "args"), M("]simple"), Same(nt, "redir"), Same(nt, "redirs0")>>),
             A(1, <<M("simple["), Same(nt, "assign"), Same(nt, "assigns0"), Same(nt, "cword"), M("]simple")>>),
